@@ -40,18 +40,21 @@ def run(ctx):
     allh = [c["history"] for c in corpus] + hists
     depth = [bool(c.get("depth0")) for c in corpus] + [i % 5 == 4 for i in range(len(hists))]
     hp = history_phase(ctx, bins, model, allh, depth_flags=depth)
+    ee = error_entry_phase(ctx, bins, model, ctx.tier == "quick")
     xcheck_model(ctx, model, 40 if ctx.tier == "quick" else 300)
-    ctx.cov["evaluations"] = lib["cases"] + hp["steps"]
+    ctx.cov["evaluations"] = lib["cases"] + hp["steps"] + ee["traces"]
     ctx.cov["distinct_nontrivial"] = hp["nontrivial"]
-    ctx.cov["traces_validated_against_impl"] = hp["steps"] - len(hp["mismatches"])
+    ctx.cov["traces_validated_against_impl"] = hp["steps"] + ee["traces"] - len(hp["mismatches"]) - len(ee["mismatches"])
     ctx.cov["rule"] = ("library level: seeded result lists (19 path spellings incl. backslashes, empty, non-ASCII; all categories and statuses) x baselines through "
                        "apply / update (4 modes, with and without an existing baseline) / ratchet / tighten / exit, implementation vs extracted model and vs one-line specs; "
                        "CLI level: histories of edits, --update-baseline <mode> (with/without --baseline) and checks (flags, [baseline] ratchet, [check] fail_fast, --files) over 5 files / 3 "
-                       "directories with sizes under/warn/over, observables statuses + exit + baseline file vs check_step. "
+                       "directories with sizes under/warn/over, observables statuses + exit + baseline file vs check_step; --files lists with an unreadable entry (I/O error) before "
+                       "recorded / unrecorded violations in every order under fail-fast. "
                        "non-trivial = histories with at least one update, one edit and a non-empty baseline on disk at some step")
     ctx.cov["input_distribution"] = {"library": lib["dist"], "histories": dict(dist, corpus=len(corpus)), "cli_steps": hp["steps"], "cli_spawns": hp["spawns"],
-                                     "fail_fast_steps": hp["ff_traces"], "library_nontrivial": lib["nontrivial"]}
-    ctx.cov["model_vs_impl_mismatches"] = len(lib["mismatches"]) + len(hp["mismatches"])
+                                     "fail_fast_steps": hp["ff_traces"], "library_nontrivial": lib["nontrivial"],
+                                     "fail_fast_traces_with_unreadable_entry": ee["traces"]}
+    ctx.cov["model_vs_impl_mismatches"] = len(lib["mismatches"]) + len(hp["mismatches"]) + len(ee["mismatches"])
     for s in lib["sample"][:1] + hp["sample"][:2]:
         ctx.sample(s)
     ctx.cov["trusted_base"] = TRUSTED_COMMON + ["python evaluator of the 5-file universe (compared with a plain `check --format json` run in every visited state)",
@@ -62,9 +65,9 @@ def run(ctx):
     fails = [f for f in lib["oracle_failures"] if f["prop"] == "C09"]
     for f in fails[:3]:
         ctx.violation({"kind": "property-oracle", "what": f["what"], "first_mismatch": {"case": f["case"]}})
-    n = report_findings(ctx, "C09", hp["findings"])
+    n = report_findings(ctx, "C09", hp["findings"] + ee["findings"])
     if not fails and not n:
-        tie = lib["mismatches"] + hp["mismatches"] + hp["structural"]
+        tie = lib["mismatches"] + hp["mismatches"] + hp["structural"] + ee["mismatches"]
         report_tie(ctx, "C09", "sgv-check / sloc-guard check == extracted Check.Baseline (apply, update, check_step)", tie, proofs_ok, lib["errs"])
 
 
